@@ -200,105 +200,119 @@ pub fn whole<S: Src, const KIND: u8, const N: usize>(s: &mut S) {
 }
 
 
-/// C03 (projection wrappers): keys() / values() / (&map).into_iter() / values_mut() / into_keys() /
-/// into_values() / Keys::clone / set iter() / (&set).into_iter() / set.into_iter() against iter() of
-/// the same arena, item by item. N = 2: a root with at most one child never grows the `vec![0]`
-/// stack (pop one, push at most one), so the real constructors run without any allocator model.
-pub fn proj<S: Src, const N: usize>(s: &mut S) {
+/// C03 (projection wrappers) against iter() of the same arena, item by item (iter() itself is checked
+/// against the entry oracle by `whole` on arenas of three slots, which include these shapes). KIND 0: keys() / values() /
+/// (&map).into_iter() / Keys::clone taken after the first item; KIND 1: values_mut() / into_keys() /
+/// into_values(), the owned ones on maps whose entry counter is *arbitrary* (iteration must not
+/// depend on it); KIND 2: set iter() / (&set).into_iter() / set.into_iter().
+/// N = 2: a root with at most one child never grows the `vec![0]` stack (pop one, push at most
+/// one), so the real constructors run without any allocator model.
+pub fn proj<S: Src, const KIND: u8, const N: usize>(s: &mut S) {
     let (nodes, r) = pre::<S, N>(s);
     let mut map = mk_map_simple(&nodes, &r);
     announce(N);
-    let q = any_p(s);
     let total = count(&nodes, &r);
-    let mut w = Walk::<N>::new();
+    let mut steps = 0;
+    let mut low_cnt = KIND != 1;
     let mut seq: [Option<(P, u8)>; N] = [None; N];
     {
         let mut it = map.iter();
-        let mut ir = (&map).into_iter();
-        let mut ik = map.keys();
-        let mut iv = map.values();
-        let mut cl = ik.clone();
         let mut k = 0;
         while k <= N {
-            let a = { let x = it.next().map(|(p, v)| (*p, *v)); if x.is_none() { w.ended = true; } x };
-            let a2 = ir.next().map(|(p, v)| (*p, *v));
-            let b = ik.next().copied();
-            let c = iv.next().copied();
-            check!(s, a == a2, "C03:(&map).into_iter() yields what iter() yields");
-            check!(s, a.map(|x| x.0) == b, "C03:keys() is the key projection of iter()");
-            check!(s, a.map(|x| x.1) == c, "C03:values() is the value projection of iter()");
-            if k >= 1 {
-                check!(s, cl.next().copied() == b, "C03:a cloned iterator continues like the original");
-            }
-            if let Some((p, v)) = a {
-                w.item(s, &nodes, &r, &p, v, &q);
+            if let Some((p, v)) = it.next().map(|(p, v)| (*p, *v)) {
+                steps += 1;
                 if k < N {
                     seq[k] = Some((p, v));
                 }
             }
-            if k == 0 {
-                // clone taken after the first item: it must continue from here, not from the start
-                std::mem::forget(std::mem::replace(&mut cl, ik.clone()));
+            k += 1;
+        }
+        std::mem::forget(it);
+    }
+    check!(s, steps == total, "C03:traversal yields exactly as many items as there are entries");
+    match KIND {
+        0 => {
+            let mut ir = (&map).into_iter();
+            let mut ik = map.keys();
+            let mut iv = map.values();
+            let mut cl = ik.clone();
+            let mut k = 0;
+            while k <= N {
+                let e = if k < N { seq[k] } else { None };
+                let a2 = ir.next().map(|(p, v)| (*p, *v));
+                let b = ik.next().copied();
+                let c = iv.next().copied();
+                check!(s, a2 == e, "C03:(&map).into_iter() yields what iter() yields");
+                check!(s, b == e.map(|x| x.0), "C03:keys() is the key projection of iter()");
+                check!(s, c == e.map(|x| x.1), "C03:values() is the value projection of iter()");
+                if k >= 1 {
+                    check!(s, cl.next().copied() == b, "C03:a cloned iterator continues like the original");
+                }
+                if k == 0 {
+                    // clone taken after the first item: it must continue from here, not from the start
+                    std::mem::forget(std::mem::replace(&mut cl, ik.clone()));
+                }
+                k += 1;
             }
-            k += 1;
+            std::mem::forget((ir, ik, iv, cl));
         }
-        std::mem::forget((it, ir, ik, iv, cl));
-    }
-    check!(s, w.steps == total, "C03:traversal yields exactly as many items as there are entries");
-    check!(s, w.seen_q == if lookup(&nodes, &r, &q).is_some() { 1 } else { 0 }, "C03:every entry exactly once and nothing else");
-    {
-        let mut im = map.values_mut();
-        let mut k = 0;
-        while k <= N {
-            let x = im.next().map(|v| *v);
-            check!(s, x == if k < N { seq[k].map(|e| e.1) } else { None }, "C03,C13:values_mut() is the value projection of iter()");
-            k += 1;
-        }
-        std::mem::forget(im);
-    }
-    {
-        let mut jk = mk_map_simple(&nodes, &r).into_keys();
-        let mut jv = mk_map_simple(&nodes, &r).into_values();
-        let mut k = 0;
-        while k <= N {
-            let e = if k < N { seq[k] } else { None };
-            check!(s, jk.next() == e.map(|e| e.0), "C03:into_keys() is the key projection of iter()");
-            check!(s, jv.next() == e.map(|e| e.1), "C03:into_values() is the value projection of iter()");
-            k += 1;
-        }
-        std::mem::forget((jk, jv));
-    }
-    {
-        type RawU = (P, Option<()>, Option<usize>, Option<usize>);
-        #[cfg(kani)]
-        {
-            crate::stubs::allow_alloc(5, N * std::mem::size_of::<RawU>());
-            crate::stubs::allow_alloc(6, N * std::mem::size_of::<RawU>().max(40));
-        }
-        let mk = |nodes: &[Raw; N]| {
-            let mut v: Vec<RawU> = Vec::with_capacity(N);
-            let mut i = 0;
-            while i < N {
-                v.push((nodes[i].0, nodes[i].1.map(|_| ()), nodes[i].2, nodes[i].3));
-                i += 1;
+        1 => {
+            {
+                let mut im = map.values_mut();
+                let mut k = 0;
+                while k <= N {
+                    let x = im.next().map(|v| *v);
+                    check!(s, x == if k < N { seq[k].map(|e| e.1) } else { None }, "C03,C13:values_mut() is the value projection of iter()");
+                    k += 1;
+                }
+                std::mem::forget(im);
             }
-            prefix_trie::PrefixSet::__verif_from_map(PrefixMap::__verif_from_raw(v, &[], 0, total, N, 0))
-        };
-        let set = mk(&nodes);
-        let mut si = set.iter();
-        let mut sr = (&set).into_iter();
-        let mut so = mk(&nodes).into_iter();
-        let mut k = 0;
-        while k <= N {
-            let e = if k < N { seq[k].map(|e| e.0) } else { None };
-            check!(s, si.next().copied() == e, "C03:set iter() yields the keys of the map iterator");
-            check!(s, sr.next().copied() == e, "C03:(&set).into_iter() yields the keys of the map iterator");
-            check!(s, so.next() == e, "C03:set.into_iter() yields the keys of the map iterator");
-            k += 1;
+            let c1 = s.idx(N + 2);
+            let c2 = s.idx(N + 2);
+            let mut jk = mk_map::<N, 0>(&nodes, &Free::<0>::empty(), c1, N, 0).into_keys();
+            let mut jv = mk_map::<N, 0>(&nodes, &Free::<0>::empty(), c2, N, 0).into_values();
+            let mut k = 0;
+            while k <= N {
+                let e = if k < N { seq[k] } else { None };
+                check!(s, jk.next() == e.map(|e| e.0), "C03:into_keys() is the key projection of iter()");
+                check!(s, jv.next() == e.map(|e| e.1), "C03:into_values() is the value projection of iter()");
+                k += 1;
+            }
+            low_cnt = c1 < total && c2 < total;
+            std::mem::forget((jk, jv));
         }
-        std::mem::forget((si, sr, so));
-        std::mem::forget(set);
+        _ => {
+            type RawU = (P, Option<()>, Option<usize>, Option<usize>);
+            #[cfg(kani)]
+            {
+                crate::stubs::allow_alloc(5, N * std::mem::size_of::<RawU>());
+            }
+            let mk = |nodes: &[Raw; N]| {
+                let mut v: Vec<RawU> = Vec::with_capacity(N);
+                let mut i = 0;
+                while i < N {
+                    v.push((nodes[i].0, nodes[i].1.map(|_| ()), nodes[i].2, nodes[i].3));
+                    i += 1;
+                }
+                prefix_trie::PrefixSet::__verif_from_map(PrefixMap::__verif_from_raw(v, &[], 0, total, N, 0))
+            };
+            let set = mk(&nodes);
+            let mut si = set.iter();
+            let mut sr = (&set).into_iter();
+            let mut so = mk(&nodes).into_iter();
+            let mut k = 0;
+            while k <= N {
+                let e = if k < N { seq[k].map(|e| e.0) } else { None };
+                check!(s, si.next().copied() == e, "C03:set iter() yields the keys of the map iterator");
+                check!(s, sr.next().copied() == e, "C03:(&set).into_iter() yields the keys of the map iterator");
+                check!(s, so.next() == e, "C03:set.into_iter() yields the keys of the map iterator");
+                k += 1;
+            }
+            std::mem::forget((si, sr, so));
+            std::mem::forget(set);
+        }
     }
+    cover!(s, low_cnt, "entry counter below the number of entries");
     cover!(s, total == N, "every slot holds an entry");
     cover!(s, total == 0, "empty map");
     cover!(s, total == 1 && !entry(&nodes, &r, 0), "value-less root above one entry");
